@@ -1,16 +1,28 @@
-// ---- specs/tlv_get.rs: get / remove / to_bytes of SerializedTlvStream (src/tlv.rs) --------------
+// ---- specs/tlv_get.rs: get / remove of SerializedTlvStream (src/tlv.rs): the interface contract
+// the callers assume (contract-only stubs) AND the one unit tlv_get proves on the real bodies
+// (the closure directives are used only there) --------------------------------------------------
 //@ fn tlv::SerializedTlvStream::get
 //@ returns r
-//@ implicit [C06,C13]
-//@ ensures#first_record_of_that_type [C10,C13]
+//@ implicit [C06,C13,C10]
+//@ ensures#first_record_of_that_type [C10,C13,C18]
       match first_of(self.view_entries(), typ) {
           None => r is None,
           Some(e) => r is Some && r->0.typ == e.typ && r->0.value@ == e.value,
       }
+//@ closure 0
+//@ cparams e: &&TlvEntry
+//@ creturns b: bool
+//@ ensures#pred_is_type_equality
+      b == (e.typ == typ)
 //@ end
 
 //@ fn tlv::SerializedTlvStream::remove
 //@ implicit [C06,C13]
-//@ ensures#removes_only_the_first_record_of_that_type [C13]
+//@ ensures#removes_only_the_first_record_of_that_type [C13,C18]
       final(self).view_entries() == remove_first(old(self).view_entries(), typ)
+//@ closure 0
+//@ cparams e: &TlvEntry
+//@ creturns b: bool
+//@ ensures#pred_is_type_equality
+      b == (e.typ == typ)
 //@ end
